@@ -346,8 +346,9 @@ def cvc5_check(smt2: str, timeout_s=20):
         os.unlink(path)
 
 
-def verify(key: str, second_opinion=False, timeout_ms=None):
-    """returns a plain dict (picklable)"""
+def verify(key: str, second_opinion=False, timeout_ms=None, only_kinds=None):
+    """returns a plain dict (picklable).  only_kinds: restrict to obligations of these kinds (e.g. {"frame"} for the
+    purity reading of C11: lemmas and canaries are skipped as well)"""
     load_all()
     from .contract import COROLLARIES
     is_cor = key in COROLLARIES
@@ -376,6 +377,12 @@ def verify(key: str, second_opinion=False, timeout_ms=None):
     try:
         # lemmas first (in declaration order; a lemma may use the ones before it)
         proven = set()
+        if only_kinds:
+            E.obl = [o for o in E.obl if o.kind in only_kinds or o.name.split(":")[0] in only_kinds]
+            E.canaries = []
+            # frame / freshness facts are about array identity and do not need the spec lemmas
+            for inst in E.spec_inst.values():
+                inst["lemmas"] = []
         for inst in E.spec_inst.values():
             for lm in inst["lemmas"]:
                 base_ax = all_axioms(E, proven, internal_for=lm.get('spec'))
